@@ -704,8 +704,8 @@ MA('C07', 'quadratic perturbation const', PROX,
    'proximal_quadratic_perturbation')
 MA('C07', 'ProximalSum attribute regression', DEFF,
    'IndicatorSumConstraint.proximal.ProximalSum._call',
-   'offset = 1 / x.size * (sum_value - x.ufuncs.sum())',
-   'offset = 1 / x.size * (self.sum_value - x.ufuncs.sum())',
+   'offset = (sum_value - x.ufuncs.sum()) / num_entries',
+   'offset = (self.sum_value - x.ufuncs.sum()) / num_entries',
    'ProximalSum._call')
 MA('C07', 'conj l2 squared with g sign', PROX,
    'proximal_convex_conj_l2_squared.ProximalConvexConjL2Squared._call',
@@ -1468,3 +1468,22 @@ M('C15', 'factory converts every non-floating value array to float', DUF,
   "    f = np.asarray(f)\n\n    interp = _normalize_interp(interp, f.ndim)",
   "    f = np.asarray(f)\n    if not np.issubdtype(f.dtype, np.floating):\n        f = f.astype(float)\n\n    interp = _normalize_interp(interp, f.ndim)",
   'per_axis_interpolator')
+PROXF = 'odl/solvers/nonsmooth/proximal_operators.py'
+MA('C07', 'sum-constraint projection divides by the number of parts', DFUN,
+   'IndicatorSumConstraint.proximal.ProximalSum._call',
+   'num_entries = domain.one().ufuncs.sum()', 'num_entries = len(x)',
+   'IndicatorSumConstraint[shape 2x2')
+M('C07', 'Huber proximal keeps small entries when gamma is 0', PROXF,
+  "            out[mask] = gamma / (gamma + self.sigma) * x[mask]",
+  "            scale = 1 / (1 + self.sigma / gamma) if gamma > 0 else 1.0\n            out[mask] = scale * x[mask]",
+  'Huber[gamma=0')
+MA('C07', 'KL conjugate proximal forgets the factor 4', PROXF,
+   'proximal_convex_conj_kl.ProximalConvexConjKL._call',
+   'out += 4.0 * lam * self.sigma', 'out += lam * self.sigma',
+   'KullbackLeibler[')
+MA('C07', 'soft thresholding with the wrong sign', PROXF,
+   'proximal_l1.ProximalL1._call', 'out.lincomb(1, x, -1, out)',
+   'out.lincomb(1, x, 1, out)', 'L1Norm[')
+MA('C07', 'box projection clips at the lower bound only', PROXF,
+   'proximal_box_constraint.ProxOpBoxConstraint._call',
+   'out.ufuncs.minimum(upper, out=out)', 'pass', 'IndicatorBox')
